@@ -16,6 +16,9 @@ budget; afterwards a tree walker checks
   4 lines in a box: y1 non-increasing (x1 non-increasing in vertical boxes);
   5 text boxes carry index 0..n-1 in iteration order of their container;
   6 get_text() of every line / box / group == concatenation of its members';
+  7 after the analysis no glyph is a direct child of an analysed container (page; figure with all_texts):
+    every glyph sits in a text line, also when the container's own lines are all blank and when
+    its text lives only in nested figures;
   plus: with boxes_flow given, the group hierarchy holds every box exactly once.
 
 Workload: (a) LTPage objects built directly from glyph boxes (stub font), shapes,
@@ -46,7 +49,7 @@ RULE = (
     "(a) scenes: a page box (letter, tiny, zero, negative origin, 2048^2, off-origin) with 0-400 glyph boxes drawn from blocks "
     "(paragraphs with aligned/ragged lines and word gaps, grids incl. touching/overlapping cells, vertical columns, overlapping "
     "piles, stairs, corner-turning runs (horizontal run then glyphs stacked under/over its last glyph, and transposed), zero-width/zero-height boxes, blank/empty/odd text, tiny glyphs, scatter, off-page/straddling/far (+-1e6) "
-    "and huge glyphs, duplicates at identical positions; kept, reversed or shuffled order), interleaved with LTRect/LTLine/"
+    "and huge glyphs, duplicates at identical positions; kept, reversed or shuffled order; 7% of the scenes hold figures only with the glyphs 1-3 figures deep and all_texts set, 7% hold only white-space / zero-area glyphs on the page and in its figures), interleaved with LTRect/LTLine/"
     "LTCurve/LTImage and figures (glyphs inside, nested to depth 3); all coordinates dyadic. LAParams families: default, typical, "
     "extreme (0, 2^-20, 1e-9, 1e6, 2^20), zero, huge, flow_none, flow_float, vertical, all_texts; boxes_flow in "
     "{None,-1,-0.5,0,0.5,1} or k/64. (b) PDFs of 1-3 pages with paragraphs, columns, rotated/sheared text, a vertical CID font, "
@@ -78,13 +81,21 @@ def minimums(tier: str) -> Dict[str, int]:
                 "containers_walked:box": 30000, "containers_walked:group": 20000, "boxes_index_checked": 30000,
                 "group_leaves_checked": 20000, "seen:la_family": 9, "seen:blocks": 13, "block:corner": 600, "line_pairs_overlap_checked:H": 40000, "line_pairs_overlap_checked:V": 3000, "pdf_pages": 100, "sample_pages": 40,
                 "stress_pages": 4, "analyze_invocations:LTFigure": 1200, "containers_walked:unanalysed_figure": 1000,
-                "multi_line_boxes:V": 40, "multi_line_boxes:H": 2500, "lines_outside_boxes": 4000, "inserted_spaces": 3000}
+                "multi_line_boxes:V": 40, "multi_line_boxes:H": 2500, "lines_outside_boxes": 4000, "inserted_spaces": 3000,
+                "scene_family:figures_only": 120, "scene_family:blank_only": 120, "pdf_mode:forms_only": 5, "pdf_mode:blank_only": 5,
+                "glyphless_container_with_text_figures:page": 120, "glyphless_container_with_text_figures:figure": 60,
+                "containers_all_lines_blank:page": 120, "containers_all_lines_blank:figure": 40,
+                "containers_with_all_glyphs_in_lines:page": 2000, "containers_with_all_glyphs_in_lines:figure": 600}
     return {"evaluations": 40000, "distinct": 38000, "analyze_invocations": 70000, "pages_analysed": 45000, "budgeted_analyses": 45000,
             "items_conserved:glyph": 2500000, "items_conserved:other": 150000, "containers_walked:line": 900000,
             "containers_walked:box": 600000, "containers_walked:group": 400000, "boxes_index_checked": 600000,
             "group_leaves_checked": 400000, "seen:la_family": 9, "seen:blocks": 13, "block:corner": 10000, "line_pairs_overlap_checked:H": 700000, "line_pairs_overlap_checked:V": 60000, "pdf_pages": 3000, "sample_pages": 250,
             "stress_pages": 8, "analyze_invocations:LTFigure": 25000, "containers_walked:unanalysed_figure": 20000,
-            "multi_line_boxes:V": 1500, "multi_line_boxes:H": 50000, "lines_outside_boxes": 90000, "inserted_spaces": 70000}
+            "multi_line_boxes:V": 1500, "multi_line_boxes:H": 50000, "lines_outside_boxes": 90000, "inserted_spaces": 70000,
+            "scene_family:figures_only": 2500, "scene_family:blank_only": 2500, "pdf_mode:forms_only": 150, "pdf_mode:blank_only": 150,
+            "glyphless_container_with_text_figures:page": 2500, "glyphless_container_with_text_figures:figure": 1200,
+            "containers_all_lines_blank:page": 2500, "containers_all_lines_blank:figure": 800,
+            "containers_with_all_glyphs_in_lines:page": 35000, "containers_with_all_glyphs_in_lines:figure": 12000}
 
 
 # deterministic dear cases (n glyphs scattered over the page box, every glyph its own box with the "zero" parameters):
@@ -279,6 +290,11 @@ def gen_scene_case(seed_str: str, tier: str) -> Dict[str, Any]:
     rng = random.Random(seed_str)
     fam = rng.choice(c08gen.LA_FAMILIES)
     la = c08gen.gen_la(rng, fam)
+    r = rng.random()
+    if r < 0.07:
+        return c08gen.gen_special_scene(rng, "figures_only", fam, la)
+    if r < 0.14:
+        return c08gen.gen_special_scene(rng, "blank_only", fam, la)
     n = pick_n(rng, tier, la)
     return c08gen.gen_scene(rng, n, fam, dense_cap=100 if tier == "quick" else 160, la=la)
 
@@ -417,6 +433,7 @@ def run_shard(spec: Dict[str, Any], rec: Any) -> None:
             rec.case(chash(scene["bbox"], scene["items"], scene["la"]), ng >= 2)
             rec.see("la_family", scene["la_family"])
             rec.count("la_family:" + scene["la_family"])
+            rec.count("scene_family:" + scene.get("special", "mixed"))
             rec.count("boxes_flow:%r" % (scene["la"]["boxes_flow"],) if scene["la"]["boxes_flow"] in c08gen.BOXES_FLOW else "boxes_flow:other")
             rec.count("detect_vertical:%d" % bool(scene["la"]["detect_vertical"]))
             rec.count("all_texts:%d" % bool(scene["la"]["all_texts"]))
@@ -449,6 +466,7 @@ def run_shard(spec: Dict[str, Any], rec: Any) -> None:
             rec.count("pdf_docs")
             for f in case["features"]:
                 rec.see("pdf_features", f)
+            rec.count("pdf_mode:" + case["mode"])
             for k, detail in fails:
                 rec.fail(k, {"kind": "pdf", "pdf": case["pdf"], "la": case["la"]}, detail + " | la=%r" % (case["la"],))
             if _runaway(fails):
